@@ -112,6 +112,22 @@ class Collect(logging.Handler):
         self.msgs.append(record.getMessage())
 
 
+class FileCollect(logging.Handler):
+    """A handler whose output is shared across fork (an O_APPEND descriptor, one JSON line per record): a worker that
+    still holds this handler shows up as extra lines."""
+    def __init__(self, path):
+        super().__init__(level=logging.DEBUG)
+        self.path = path
+        self.fd = os.open(path, os.O_WRONLY | os.O_CREAT | os.O_APPEND, 0o644)
+
+    def emit(self, record):
+        os.write(self.fd, (json.dumps(record.getMessage()) + '\n').encode())
+
+    def messages(self):
+        with open(self.path) as f:
+            return [json.loads(l) for l in f if l.strip()]
+
+
 def run_real(cfg):
     """A real run; returns the messages handled by a handler on the caller's labtech logger before run_tasks returned."""
     d = tempfile.mkdtemp(dir=subdir('log'))
@@ -122,7 +138,9 @@ def run_real(cfg):
     logger = logging.getLogger('labtech')
     saved_handlers, saved_level = list(logger.handlers), logger.level
     h = Collect()
-    logger.handlers = [h]
+    files = [FileCollect(os.path.join(d, f'handler{i}.log')) for i in range(cfg.get('nhandlers', 1) - 1)]
+    pos = cfg.get('collect_pos', 0) % (len(files) + 1)
+    logger.handlers = files[:pos] + [h] + files[pos:]
     logger.setLevel(logging.INFO)
     stop = threading.Event()
     released = []
@@ -161,10 +179,13 @@ def run_real(cfg):
         time.sleep(0.05)
         late = h.msgs[len(msgs):]
         cfg['released'] = list(released)
+        cfg['_file_msgs'] = [f.messages() for f in files]
         return msgs, late
     finally:
         stop.set()
         th.join(5)
+        for f in files:
+            os.close(f.fd)
         logger.handlers = saved_handlers
         logger.setLevel(saved_level)
         os.environ.pop('LV_GATEDIR', None)
@@ -243,12 +264,22 @@ def run(prop, report, tier, seed, replay=None):
             cfgs.append(dict(backend='fork' if (i % 5 or tier == 'quick' and i > 1) else 'spawn', max_workers=rng.choice([1, 2, None]),
                              scripts=[gen_script(rng, t) or [['print', f'P{t}-x']] for t in range(n)], order=order,
                              behs=[('raise' if rng.random() < 0.35 else 'ok') for _ in range(n)],
-                             gap=rng.choice([0.0, 0.0, 0.02])))
+                             gap=rng.choice([0.0, 0.0, 0.02]), nhandlers=rng.choice([1, 2, 2, 3]), collect_pos=rng.randrange(3)))
     for cfg in cfgs:
         msgs, late = run_real(cfg)
         want = expected_counts(cfg)
         got = observed_counts(msgs, want)
+        for k, fm in enumerate(cfg.pop('_file_msgs', [])):
+            fgot = observed_counts(fm, want)
+            if fgot != want:
+                dup = sorted(t for t in want if fgot[t] > want[t])
+                lost = sorted(t for t in want if fgot[t] < want[t])
+                report.violation('C19:delivered-twice' if dup else 'C19:lost',
+                                 f"handler {k + 2} of {cfg.get('nhandlers')} on the caller's labtech logger (a shared append-mode file) received "
+                                 f'{"more than once: " + str(dup[:4]) if dup else "never: " + str(lost[:4])}', dict(config=cfg))
+                break
         dist[f"real:{cfg['backend']}"] += 1
+        dist[f"handlers={cfg.get('nhandlers', 1)}"] += 1
         dist['real_tasks'] += len(cfg['scripts'])
         if got != want:
             lost = sorted(t for t in want if got[t] < want[t])
